@@ -2,23 +2,28 @@
    /repo/internal/explain/select.go equal the number of children they emit, for EVERY combination
    of optional clauses, exactly under the stated invariants; hence the output is a well-formed
    tree ([check_lines]).  Model: Select/SelectExplainModel.v (count code and emit code transcribed
-   separately, as in Go).  Proofs: Select/SelectExplainProof.v.  Tie to the code:
-   /verif/harness/cmd/selectcount vs /verif/driver/selectcount on /verif/checks/gen_select_cases.py.
+   separately, as in Go; /repo revision a9fde9fa2).  Proofs: Select/SelectExplainProof.v.  Tie to
+   the code: /verif/harness/cmd/selectcount vs /verif/driver/selectcount on
+   /verif/checks/gen_select_cases.py.
 
-   The invariants and where the parser establishes them (or does not -- findings):
+   [nrm ls = map norm_line ls] reads "(children 0)" as "no suffix": Go prints
+   "ExpressionList (children 0)" for an empty list (empty select list of `SELECT`, empty
+   Selects of `(2)`), which is a correct count.
+
+   The invariants and where the parser establishes them:
      inv_limit (LimitByOffset != nil -> LimitByLimit != nil;
                 LimitByLimit == nil /\ len(LimitBy) > 0 -> Offset == nil)
         established by parser.go parseSelect, LIMIT / OFFSET blocks: LimitBy is appended only
         in the two blocks that first move Limit into LimitByLimit (and Offset into LimitByOffset).
-     inv_shape: Columns non-empty                      NOT established: `SELECT`, `SELECT ;`
-                From != nil -> some table or ARRAY JOIN   (From is only created with a table)
-                GROUPING SETS tuple literals carry []Expression (parser builds them so)
-     inv_union_settings: not both a SETTINGS before FORMAT and one after it / a legacy one
-                                                          NOT established:
-                `(SELECT 1) SETTINGS a=1 FORMAT Null SETTINGS b=2`,
-                `SELECT 1 FORMAT Null SETTINGS b=2 SETTINGS c=3`  print (children 3) + 4 children
-     u_grouped non-empty                               NOT established: `(2)`, `()`  print
-                `ExpressionList (children 0)`. *)
+        NECESSARY: C04_select_header_eq_direct_children is an equivalence.
+     inv_shape: in GROUPING SETS mode no Parenthesized tuple literal whose Value is not
+        []Expression (explainSelectQuery prints nothing for it); the parser always builds tuple
+        literals with a []Expression value.
+   Nothing else: no restriction on the union / intersect level (the SETTINGS double count was
+   fixed in /repo 699117351), none on empty lists, none on the unionTail value that the
+   enclosing INSERT / EXPLAIN / CREATE passes (/repo a9fde9fa2: count and emission use the same
+   three unionTail methods; noFormatOf / noSettingsOf pointers are modelled as the position of
+   the member in n.Selects, assuming no pointer occurs twice there). *)
 From Coq Require Import List NArith Bool.
 From DC Require Import Tree.LineTree Tree.LineTreeProof
      Select.SelectExplainModel Select.SelectExplainProof.
@@ -46,7 +51,7 @@ Print Assumptions C04_select_header_eq_direct_children.
 
 Theorem C04_select_is_tree :
   forall (d : nat) (n : select_query),
-    inv_select n -> explain_select_query d n = render d (select_tree n).
+    inv_select n -> nrm (explain_select_query d n) = render d (select_tree n).
 Proof. exact explain_select_query_tree. Qed.
 Print Assumptions C04_select_is_tree.
 
@@ -66,63 +71,93 @@ Print Assumptions C04_select_inherited_count_eq_emitted.
 
 Theorem C04_select_inherited_is_tree :
   forall (d : nat) (s : sel_item) (iw : list rose),
-    inv_item s -> iw <> [] ->
-    explain_select_query_with_inherited_with d s iw = render d (item_tree_inherited iw s).
+    inv_item s ->
+    nrm (explain_select_query_with_inherited_with d s iw) = render d (item_tree_inherited iw s).
 Proof. exact explain_inherited_tree. Qed.
 Print Assumptions C04_select_inherited_is_tree.
 
-(* ---- SelectWithUnionQuery ---- *)
+(* ---- SelectWithUnionQuery: for EVERY unionTail value, unconditional ---- *)
 
 Theorem C04_union_count_eq_emitted :
-  forall (n : union_query) (with_format : bool),
-    inv_union_settings n <->
-    count_select_union_children_format n with_format
-    = (1 + length (union_tail_children n with_format))%nat.
-Proof. exact count_select_union_children_correct. Qed.
+  forall (n : union_query) (t : union_tail),
+    count_select_union_children_tail n t = length (union_children n t).
+Proof. exact count_select_union_children_eq_emitted. Qed.
 Print Assumptions C04_union_count_eq_emitted.
 
+Theorem C04_union_inherited_count_eq_emitted :
+  forall (n : union_query) (iw : list rose) (t : union_tail),
+    count_select_union_children_tail n t = length (union_children_inherited n iw t).
+Proof. exact count_select_union_children_inherited_eq_emitted. Qed.
+Print Assumptions C04_union_inherited_count_eq_emitted.
+
+(* inv_union n = every member of the select list that is a SelectQuery satisfies inv_select *)
 Theorem C04_union_header_eq_direct_children :
-  forall (d : nat) (n : union_query) (with_format : bool),
-    u_grouped n <> [] -> Forall inv_item (u_grouped n) ->
-    (header_count (explain_select_with_union_query_format d n with_format)
-     = direct_children (explain_select_with_union_query_format d n with_format)
-     <-> inv_union_settings n).
-Proof. exact union_counts_agree_iff. Qed.
+  forall (d : nat) (n : union_query) (t : union_tail),
+    inv_union n ->
+    header_count (explain_select_with_union_query_tail d n t)
+    = direct_children (explain_select_with_union_query_tail d n t).
+Proof. exact union_counts_agree. Qed.
 Print Assumptions C04_union_header_eq_direct_children.
 
-Theorem C04_union_is_tree :
-  forall (d : nat) (n : union_query) (with_format : bool),
+Theorem C04_union_inherited_header_eq_direct_children :
+  forall (d : nat) (n : union_query) (iw : list rose) (t : union_tail),
     inv_union n ->
-    explain_select_with_union_query_format d n with_format = render d (union_tree n with_format).
+    header_count (explain_select_with_union_query_with_inherited_with d n iw t)
+    = direct_children (explain_select_with_union_query_with_inherited_with d n iw t).
+Proof. exact union_inherited_counts_agree. Qed.
+Print Assumptions C04_union_inherited_header_eq_direct_children.
+
+Theorem C04_union_is_tree :
+  forall (d : nat) (n : union_query) (t : union_tail),
+    inv_union n ->
+    nrm (explain_select_with_union_query_tail d n t) = render d (union_tree n t).
 Proof. exact explain_union_tree. Qed.
 Print Assumptions C04_union_is_tree.
 
 Theorem C04_union_check_lines :
-  forall (n : union_query) (with_format : bool),
-    inv_union n -> check_lines (explain_select_with_union_query_format 0 n with_format) = true.
+  forall (n : union_query) (t : union_tail),
+    inv_union n -> check_lines (explain_select_with_union_query_tail 0 n t) = true.
 Proof. exact explain_union_check. Qed.
 Print Assumptions C04_union_check_lines.
 
 Theorem C04_union_inherited_is_tree :
-  forall (d : nat) (n : union_query) (iw : list rose),
-    inv_union n -> iw <> [] ->
-    explain_select_with_union_query_with_inherited_with d n iw
-    = render d (union_tree_inherited n iw).
+  forall (d : nat) (n : union_query) (iw : list rose) (t : union_tail),
+    inv_union n ->
+    nrm (explain_select_with_union_query_with_inherited_with d n iw t)
+    = render d (union_tree_inherited n iw t).
 Proof. exact explain_union_inherited_tree. Qed.
 Print Assumptions C04_union_inherited_is_tree.
 
 Theorem C04_union_inherited_check_lines :
-  forall (n : union_query) (iw : list rose),
-    inv_union n -> iw <> [] ->
-    check_lines (explain_select_with_union_query_with_inherited_with 0 n iw) = true.
+  forall (n : union_query) (iw : list rose) (t : union_tail),
+    inv_union n ->
+    check_lines (explain_select_with_union_query_with_inherited_with 0 n iw t) = true.
 Proof. exact explain_union_inherited_check. Qed.
 Print Assumptions C04_union_inherited_check_lines.
+
+(* the instances used by INSERT ... SELECT, EXPLAIN <select>, CREATE ... AS SELECT ... FORMAT *)
+Theorem C04_union_in_insert_check_lines :
+  forall (insert_with : list rose) (n : union_query),
+    inv_union n -> check_lines (explain_insert_select 0 insert_with n) = true.
+Proof. exact explain_insert_select_check. Qed.
+Print Assumptions C04_union_in_insert_check_lines.
+
+Theorem C04_union_in_explain_check_lines :
+  forall n : union_query, inv_union n -> check_lines (explain_explain_select 0 n) = true.
+Proof. exact explain_explain_select_check. Qed.
+Print Assumptions C04_union_in_explain_check_lines.
+
+Theorem C04_union_in_create_check_lines :
+  forall n : union_query, inv_union n -> check_lines (explain_as_select_without_format 0 n) = true.
+Proof. exact explain_as_select_check. Qed.
+Print Assumptions C04_union_in_create_check_lines.
 
 (* ---- SelectIntersectExceptQuery ---- *)
 
 Theorem C04_intersect_is_tree :
   forall (d : nat) (n : intersect_query),
-    inv_intersect n -> explain_select_intersect_except_query d n = render d (intersect_tree n).
+    inv_intersect n ->
+    nrm (explain_select_intersect_except_query d n) = render d (intersect_tree n).
 Proof. exact explain_intersect_tree. Qed.
 Print Assumptions C04_intersect_is_tree.
 
@@ -214,18 +249,56 @@ Definition select_1 : select_query :=
      sq_offset := None; sq_settings := 0; sq_settings_after_format := false;
      sq_into_outfile := None; sq_format := Some (idn "Null") |}.
 
-(* FINDING, reproduced in the model: the AST the parser builds for
-       (SELECT 1) SETTINGS a=1 FORMAT Null SETTINGS b=2
+(* the AST the parser builds for   (SELECT 1) SETTINGS a=1 FORMAT Null SETTINGS b=2
    (SettingsBeforeFormat and SettingsAfterFormat both set on the union, Format on the select):
-   header "(children 3)", four children printed, not a tree. *)
+   before /repo 699117351 the header said 3 while 4 children were printed; now 4 = 4. *)
 Definition double_settings_union : union_query :=
   {| u_selects := [ItemSelect select_1]; u_grouped := [ItemSelect select_1];
      u_settings := 1; u_settings_after_format := true; u_settings_before_format := true |}.
 
 Example double_settings_counts :
-  header_count (explain_select_with_union_query_format 0 double_settings_union true) = 3%nat /\
-  direct_children (explain_select_with_union_query_format 0 double_settings_union true) = 4%nat /\
-  check_lines (explain_select_with_union_query_format 0 double_settings_union true) = false.
+  header_count (explain_select_with_union_query 0 double_settings_union) = 4%nat /\
+  direct_children (explain_select_with_union_query 0 double_settings_union) = 4%nat /\
+  check_lines (explain_select_with_union_query 0 double_settings_union) = true.
+Proof. vm_compute. repeat split. Qed.
+
+(* empty lists print "(children 0)", a correct count: the AST of a bare `SELECT` (no columns)
+   and of `(2)` (a union without selects) *)
+Definition no_columns_select : select_query :=
+  {| sq_with := []; sq_distinct_on := []; sq_top := None; sq_columns := [];
+     sq_from := None; sq_array_join := None; sq_prewhere := None; sq_where := None;
+     sq_group_by := []; sq_group_by_all := false; sq_grouping_sets := false;
+     sq_having := None; sq_qualify := None; sq_window := 0; sq_order_by := [];
+     sq_interpolate := []; sq_limit := None; sq_limit_by := [];
+     sq_limit_by_limit := None; sq_limit_by_offset := None;
+     sq_offset := None; sq_settings := 0; sq_settings_after_format := false;
+     sq_into_outfile := None; sq_format := None |}.
+
+Example no_columns_ok :
+  explain_select_query 0 no_columns_select
+  = [hdr 0 L_SelectQuery 1; hdr 1 L_ExpressionList 0] /\
+  check_lines (explain_select_query 0 no_columns_select) = true /\
+  check_text node_kinds (print_lines (explain_select_query 0 no_columns_select)) = true.
+Proof. vm_compute. repeat split. Qed.
+
+Definition empty_union : union_query :=
+  {| u_selects := []; u_grouped := []; u_settings := 0;
+     u_settings_after_format := false; u_settings_before_format := false |}.
+
+Example empty_union_ok :
+  check_text node_kinds (print_lines (explain_select_with_union_query 0 empty_union)) = true.
+Proof. vm_compute. reflexivity. Qed.
+
+(* EXPLAIN (SELECT 1) SETTINGS a=1 FORMAT Null SETTINGS b=2: the enclosing Explain node prints
+   the FORMAT of the first select and the trailing SETTINGS itself (tail: noSettings,
+   noFormatOf = member 0), so the nested union prints only its select list: header 1 = 1 *)
+Example explain_tail_example :
+  explain_query_tail double_settings_union = mkTail false (Some 0%nat) true None /\
+  header_count (explain_explain_select 0 double_settings_union) = 1%nat /\
+  direct_children (explain_explain_select 0 double_settings_union) = 1%nat /\
+  check_lines (explain_explain_select 0 double_settings_union) = true /\
+  header_count (explain_as_select_without_format 0 double_settings_union) = 3%nat /\
+  direct_children (explain_as_select_without_format 0 double_settings_union) = 3%nat.
 Proof. vm_compute. repeat split. Qed.
 
 (* a well-formed union: SELECT 1 FORMAT Null, one select, no settings *)
@@ -235,10 +308,10 @@ Definition plain_union : union_query :=
 
 Example plain_union_inv : inv_union plain_union.
 Proof.
-  unfold inv_union, inv_union_settings, plain_union; cbn. repeat split; try discriminate.
+  unfold inv_union, plain_union; cbn.
   repeat constructor; cbn; try discriminate; try congruence.
 Qed.
 
 Example plain_union_text_ok :
-  check_text node_kinds (print_lines (explain_select_with_union_query_format 0 plain_union true)) = true.
+  check_text node_kinds (print_lines (explain_select_with_union_query 0 plain_union)) = true.
 Proof. vm_compute. reflexivity. Qed.
